@@ -1037,6 +1037,8 @@ static void gen_expr(Node *node) {
       println("  %s %%al, %%eax", ty->is_unsigned ? "movzbl" : "movsbl");
     else if (sz == 2)
       println("  %s %%ax, %%eax", ty->is_unsigned ? "movzwl" : "movswl");
+    else if (sz == 4 && !ty->is_unsigned)
+      println("  movsxd %%eax, %%rax");
     return;
   }
   }
